@@ -387,12 +387,29 @@ func c17Main(rc *RunCtx) {
 			for s := 0; s < c.perCall[ci] && rc.Viol == nil; s++ {
 				call := w.NewCall(ci, s, uint16(simrt.Choose(65536)), 1)
 				dl := 20 * time.Second
-				if c.slow && simrt.Choose(2) == 0 {
-					dl = 2 * time.Second
+				if c.slow {
+					// 2 s: room for a late UDP reply plus a slow TCP reply; 1.3 s: ends at the
+					// very instant the late UDP reply arrives; 150 ms / 1.5 s: end inside
+					// the UDP wait / the TCP leg (the caller gives up, later calls go on)
+					dl = []time.Duration{20 * time.Second, 2 * time.Second, 2 * time.Second, 1300 * time.Millisecond, 150 * time.Millisecond, 1500 * time.Millisecond}[simrt.Choose(6)]
 				}
 				ctx, cancel := context.WithTimeout(context.Background(), dl)
 				call.Ctx = ctx
 				call.Deadline = simrt.S.Elapsed() + dl
+				if c.slow && dl == 1300*time.Millisecond {
+					// the caller's context is ended by another task (its client went
+					// away) at the very instant the late UDP reply arrives: the two
+					// events are ordered by the scheduler, not by the clock
+					cancel()
+					ctx, cancel = context.WithCancel(context.Background())
+					call.Ctx = ctx
+					cf := cancel
+					simrt.GoNamed(fmt.Sprintf("cancel%d", call.Idx), func() {
+						simrt.Sleep(0, 1300*time.Millisecond)
+						simrt.Fault("ctx_cancel_at_reply_arrival")
+						cf()
+					}).Daemon = true
+				}
 				if !c.slow && simrt.Choose(4) == 0 {
 					// a caller without any deadline (cancelled only when it is done)
 					cancel()
@@ -445,6 +462,8 @@ func c17Check(rc *RunCtx, c *c17cfg, x *Call) {
 				return
 			}
 			simrt.Probe("c17.tcp_answer_returned")
+		} else if x.EndAt >= x.Deadline {
+			simrt.Probe("c17.caller_gave_up") // its context ended: any error will do
 		} else {
 			// the failure must be TCP's: either the query reached the TCP server and
 			// it died, or a dial was refused while the call was in progress
@@ -473,6 +492,10 @@ func c17Check(rc *RunCtx, c *c17cfg, x *Call) {
 		return
 	}
 	simrt.Probe("c17.plain_reply")
+	if x.Err != nil && x.EndAt >= x.Deadline {
+		simrt.Probe("c17.caller_gave_up")
+		return
+	}
 	if x.Err != nil {
 		rc.Fail("untruncated_reply_not_returned", "call %d: UDP reply without TC was sent, but the call failed: %v", x.Idx, x.Err)
 		return
